@@ -137,11 +137,21 @@ def run(ctx):
             violations.append(Violation("TimestampArray.as_datetime64(%r) raised %r" % (res, ex), dict(kind="array", res=res)))
             continue
         prev = None
+        base_count = counts["reader_scalar"]
         for (s, f), md, ao in zip(pairs, mdec, arr_out):
             counts["reader_scalar"] += 1
             counts["reader_array"] += 1
             distinct.add(("r", res, s, f))
             got = int(TdmsTimestamp(s, f).as_datetime64(res).astype("int64")) - EPOCH_UNIX_S * R
+            # the same timestamp as an element of the array (its fields are NumPy scalars then, not Python ints)
+            if counts["reader_scalar"] % 3 == 0:
+                try:
+                    got_el = int(ta[counts["reader_scalar"] - base_count - 1].as_datetime64(res).astype("int64")) - EPOCH_UNIX_S * R
+                except Exception as ex:  # noqa
+                    got_el = repr(ex)
+                if got_el != got:
+                    violations.append(Violation("as_datetime64(%r) of the array element (%d, %d) gives %s, the same timestamp built from Python ints gives %d" % (res, s, f, got_el, got),
+                                                dict(kind="convert", res=res, seconds=s, fractions=f, element=got_el, scalar=got)))
             got_arr = int(ao) - EPOCH_UNIX_S * R
             if md is not None and (md[0] != got or md[1] != got_arr):
                 disagreements.append(dict(what="as_datetime64(%r) of (%d,%d): real scalar=%d array=%d model=%s" % (res, s, f, got, got_arr, md)))
